@@ -92,6 +92,25 @@ def applyText (env : Loader.Env) (E : LinkEnv) (eng : Eng) (k f : Nat) (lines : 
   | .error e => .error (.load e)
   | .ok lm => afterLoad E eng f s lm
 
+/-- the same with the mask-threading semantics (`traceStepsM`, Mask.lean) — programs with mask rules. -/
+def afterLoadM (E : LinkEnv) (eng meng : Eng) (f : Nat) (s : Str) (lm : Loader.Module × List (Str × Loader.Module)) :
+    Except TErr (List StepM × Verif.C14.Result) :=
+  match linkModule { E with mods := E.mods ++ lm.2 } f lm.1 with
+  | .error e => .error (.run e)
+  | .ok ops =>
+    match traceStepsM eng meng f ops s with
+    | .error e => .error (.run e)
+    | .ok (stm, o) =>
+      match Verif.C14.mergeSteps (stm.map (·.step)) (Verif.C14.initStart s) (Verif.C14.initEnd s) with
+      | none => .error (.run .indexError)
+      | some (sm, em) => .ok (stm, ⟨o, sm, em⟩)
+
+def applyTextM (env : Loader.Env) (E : LinkEnv) (eng meng : Eng) (k f : Nat) (lines : List Str) (s : Str) :
+    Except TErr (List StepM × Verif.C14.Result) :=
+  match loadLines env k lines with
+  | .error e => .error (.load e)
+  | .ok lm => afterLoadM E eng meng f s lm
+
 /-! ### the same, directly on the operation tree the harness renders (no text) -/
 
 mutual
@@ -139,6 +158,17 @@ def semNodes (E : LinkEnv) (D : List (Str × List Node)) : Nat → List Node →
       match semNodes E D f r with
       | .error e => .error e
       | .ok os => .ok (o :: os)
+end
+
+mutual
+/-- no mask rule in the tree. -/
+def nodeMaskFree : Node → Bool
+  | .mask _ => false
+  | .defcall _ body _ => nodesMaskFree body
+  | _ => true
+def nodesMaskFree : List Node → Bool
+  | [] => true
+  | x :: r => nodeMaskFree x && nodesMaskFree r
 end
 
 /-- `apply` of the module whose operation tree is `nodes` (what the harness builds and renders). -/
